@@ -354,6 +354,25 @@ def _simple_arg(a):
     return False
 
 
+def _rebase_this(body, obj, arrow):
+    """copy of a member function body in which `this` is the object expression `obj` (reached through a pointer when arrow): implicit and explicit
+    `this->m` become `obj.m` / `obj->m`, a bare `this` becomes `&obj` / `obj`."""
+    def fn(x):
+        if x.get('k') == 'LambdaExpr':
+            return None
+        if x.get('k') == 'MemberExpr':
+            c = x.get('c') or []
+            if not c or (c[0] or {}).get('k') == 'CXXThisExpr':
+                y = dict(x)
+                y['c'] = [dict(obj)]
+                y['arrow'] = bool(arrow)
+                return y
+        if x.get('k') == 'CXXThisExpr':
+            return dict(obj) if arrow else {'k': 'UnaryOperator', 'op': '&', 'c': [dict(obj)], 'loc': x.get('loc'), 't': x.get('t')}
+        return None
+    return _replace(body, fn)
+
+
 def _param_subst(body, params, args, decls=None):
     """copy of `body` with every reference to a parameter replaced by the corresponding argument expression; the locals of the copy get
     locations of their own (two inlined copies of one helper must not share their locals).  With `decls` (a list), an argument that is not simple and
@@ -521,8 +540,9 @@ def inline_helpers(functions, inventory, root):
             del new[fid]
     count = 0
 
-    def expand_stmt(s, depth=0):
-        """returns a list of statements replacing s, or None."""
+    def expand_stmt(s, depth=0, tail=False):
+        """returns a list of statements replacing s, or None.  tail: s is the last statement of a function / lambda body (a `return;` of the helper is then
+        a `return;` of that body)."""
         nonlocal count
         if depth > 4:
             return None
@@ -548,7 +568,10 @@ def inline_helpers(functions, inventory, root):
             def lit(r, v):
                 return isinstance(r, dict) and r.get('k') == 'ReturnStmt' and r.get('c') and r['c'][0].get('k') == 'CXXBoolLiteralExpr' and bool(r['c'][0].get('val')) == v
             if isinstance(c, dict) and c.get('k') == 'UnaryOperator' and c.get('op') == '!' and c.get('c') and c['c'][0].get('k') in ('CXXMemberCallExpr', 'CallExpr') \
-                    and c['c'][0].get('callee') in new and _on_this(c['c'][0]) and lit(t, False):
+                    and c['c'][0].get('callee') in new and _on_this(c['c'][0]) and isinstance(t, dict) and t.get('k') == 'ReturnStmt' and \
+                    not any(x.get('k') in ('CXXMemberCallExpr', 'CallExpr', 'CXXOperatorCallExpr') for x in _walk(t)):
+                # `if (!h(args)) return X;` where h answers false on its early exits and true only at its very end: the body of h with every `return false;`
+                # turned into `return X;` and its last `return true;` dropped does exactly that
                 cl = c['c'][0]
                 h = new[cl['callee']]
                 top = list(h['body'].get('c') or ())
@@ -557,18 +580,36 @@ def inline_helpers(functions, inventory, root):
                 if top and lit(top[-1], True) and all(lit(r, False) for r in rets if r is not top[-1]) and len(args) == len(h.get('params') or ()):
                     count += 1
                     pre = {'k': 'CompoundStmt', 'c': top[:-1], 'loc': h['body'].get('loc')}
-                    return [_param_subst(pre, h.get('params') or [], args)]
-        if call is None or not _on_this(call):
+                    pre = _param_subst(pre, h.get('params') or [], args)
+                    if not lit(t, False):
+                        def as_caller(x, t=t):
+                            if x.get('k') == 'LambdaExpr':
+                                return x
+                            if lit(x, False):
+                                y = dict(t)
+                                y.pop('id', None)
+                                return y
+                            return None
+                        pre = _replace(pre, as_caller)
+                    return [pre]
+        if call is None:
             return None
         h = new[call['callee']]
+        body = h['body']
+        if not _on_this(call):
+            # a helper of another object, called on a plain variable / member (`sv.h(..)`, `p->h(..)`): its body with that object for `this`
+            me = (call.get('c') or [None])[0]
+            obj = (me.get('c') or [None])[0] if isinstance(me, dict) and me.get('k') == 'MemberExpr' else None
+            if obj is None or not _simple_arg(obj) or mode != 'stmt':
+                return None
+            body = _rebase_this(body, obj, me.get('arrow'))
         args = (call.get('c') or [])[1:]
         params = h.get('params') or []
         if len(args) != len(params):
             return None
-        body = h['body']
         rets = _returns(body)
         if mode == 'stmt':
-            if rets:
+            if rets and not (tail and not any(r.get('c') for r in rets)):
                 body = _no_returns(body)
                 if body is None:
                     return None
@@ -597,7 +638,7 @@ def inline_helpers(functions, inventory, root):
             return list(pre.get('c') or ()) + [ns]
         return None
 
-    def rewrite(n):
+    def rewrite(n, tail_body=False):
         nonlocal count
         if not isinstance(n, dict):
             return n
@@ -605,9 +646,9 @@ def inline_helpers(functions, inventory, root):
         if n.get('c'):
             cs = []
             for c in n['c']:
-                c2 = rewrite(c)
+                c2 = rewrite(c, tail_body=(n.get('k') == 'LambdaExpr' and isinstance(c, dict) and c.get('k') == 'CompoundStmt'))
                 if n.get('k') == 'CompoundStmt':
-                    ex = expand_stmt(c2)
+                    ex = expand_stmt(c2, tail=tail_body and c is n['c'][-1])
                     if ex is not None:
                         cs.extend(rewrite(x) for x in ex)
                         continue
@@ -641,7 +682,7 @@ def inline_helpers(functions, inventory, root):
         if not any(x.get('callee') in new for x in _walk(d['body'])):
             continue
         before = count
-        d['body'] = rewrite(d['body'])
+        d['body'] = rewrite(d['body'], tail_body=True)
         if count > before:
             d['_inlined'] = sorted({x for x in new if x in {y.get('callee') for y in _walk(d['body'])}} | set(d.get('_inlined') or ()))
     return count
@@ -1182,6 +1223,36 @@ def _uses_see_no_write(stmt, use_ids, rm, rl):
                     outs.append(a2)
             if not outs:
                 return acc, True
+            return (set().union(*[o[0] for o in outs]), set().union(*[o[1] for o in outs])), True
+        if k == 'SwitchStmt' and isinstance(sl.get('body'), dict) and sl['body'].get('k') == 'CompoundStmt':
+            # the arms of a switch are alternatives: an arm sees what was written before the switch and, when the arm above falls into it, what that arm wrote
+            acc, ok = expr(sl.get('cond'), acc)
+            if not ok:
+                return acc, False
+            acc0 = acc
+            cur = acc0
+            prev_falls = False
+            outs = [acc0]
+            for c in sl['body'].get('c') or ():
+                inner = c
+                labelled = False
+                while isinstance(inner, dict) and inner.get('k') in ('CaseStmt', 'DefaultStmt'):
+                    labelled = True
+                    inner = (inner.get('c') or [None])[-1]
+                if labelled:
+                    cur = (acc0[0] | cur[0], acc0[1] | cur[1]) if prev_falls else acc0
+                if isinstance(inner, dict) and inner.get('k') == 'BreakStmt':
+                    outs.append(cur)
+                    prev_falls = False
+                    continue
+                cur, ok = scan(inner, cur)
+                if not ok:
+                    return acc, False
+                prev_falls = inner is None or _falls(inner)
+                if isinstance(inner, dict) and inner.get('k') == 'CompoundStmt' and any(x.get('k') == 'BreakStmt' for x in (inner.get('c') or ())):
+                    prev_falls = False
+                    outs.append(cur)
+            outs.append(cur)
             return (set().union(*[o[0] for o in outs]), set().union(*[o[1] for o in outs])), True
         if k in ('WhileStmt', 'ForStmt', 'DoStmt', 'CXXForRangeStmt', 'SwitchStmt'):
             if k == 'ForStmt':
